@@ -411,37 +411,42 @@ func runEngineB(p *Prog, o *obls) {
 		fn     *ssa.Function
 		params []int
 		what   string
+		key    string
 	}
 	var srcs []src
 	closures, _ := p.PktClosures()
 	for _, c := range closures {
 		off := 0
-		if c.Wrapper != nil {
+		if c.Method {
 			off = 1 // method form: parameter 0 is the receiver
 		}
 		switch c.Kind {
 		case RTPWriter:
-			srcs = append(srcs, src{c.Fn, []int{off, off + 1}, "header and payload of the caller's Write"})
+			srcs = append(srcs, src{c.Fn, []int{off, off + 1}, "header and payload of the caller's Write", closureKey(c)})
 		case RTPReader, RTCPReader:
-			srcs = append(srcs, src{c.Fn, []int{off}, "the caller's read buffer"})
+			srcs = append(srcs, src{c.Fn, []int{off}, "the caller's read buffer", closureKey(c)})
 		}
 	}
 	// Write methods of types implementing RTPWriter (pacers)
+	isClosureFn := map[*ssa.Function]bool{}
+	for _, c := range closures {
+		isClosureFn[c.Fn] = true
+	}
 	for _, f := range p.Funcs {
-		if f.Parent() != nil || f.Name() != "Write" || f.Signature.Recv() == nil {
+		if f.Parent() != nil || f.Name() != "Write" || f.Signature.Recv() == nil || isClosureFn[f] {
 			continue
 		}
 		if types.Implements(f.Signature.Recv().Type(), p.rootIface("RTPWriter")) && len(f.Params) == 4 {
 			if typeKey(f.Signature.Recv().Type()) == "interceptor.RTPWriterFunc" {
 				continue
 			}
-			srcs = append(srcs, src{f, []int{1, 2}, "header and payload of the caller's Write"})
+			srcs = append(srcs, src{f, []int{1, 2}, "header and payload of the caller's Write", funcKey(f)})
 		}
 	}
-	sort.Slice(srcs, func(i, j int) bool { return funcKey(srcs[i].fn) < funcKey(srcs[j].fn) })
+	sort.Slice(srcs, func(i, j int) bool { return srcs[i].key < srcs[j].key })
 	for _, s := range srcs {
 		sum := tc.analyse(s.fn, s.params, nil)
-		key := funcKey(s.fn)
+		key := s.key
 		pos := p.Pos(s.fn.Pos())
 		if len(sum.retains) > 0 {
 			w := sum.retains
